@@ -16,6 +16,7 @@
 
 """Container that stores cached (interpolated) and uncached (raw) sensor data."""
 
+import ast
 import logging
 import re
 import threading
@@ -231,7 +232,7 @@ def _h5_telstate_unpack(s):
         try:
             # Before 2016-05-09 the telstate values were str() representations
             # This cannot be unpacked in general but works for numbers at least
-            return np.safe_eval(s)
+            return ast.literal_eval(s)
         except (ValueError, SyntaxError):
             # When unsure, return the string itself (correct for string sensors)
             return s
